@@ -99,6 +99,9 @@ def catalogue():
         assign("x", ["call", V("<builtin>len"), [V("y")], []]),
         assign("w", V("i"), loops=[["i", C(0), C(3)]]),
         assign("x", ["pow", V("y"), C(2)]),
+        assign("y", V("x")),                      # copy chains: widening must travel along them
+        assign("z", V("y")),
+        assign("w", V("z")),
     ]
 
 
@@ -223,7 +226,7 @@ def run(chk):
     # ---- order part --------------------------------------------------------------------
     cat = catalogue()
     n = len(cat)
-    maxk = 3 if chk.quick else 4
+    maxk = 4 if chk.quick else 5
     progs_ = []
     for k in range(2, maxk + 1):
         for comb in itertools.combinations(range(n), k):
@@ -232,9 +235,12 @@ def run(chk):
                 splits = [q for r in range(0, k) for q in itertools.combinations(comb, r)]
             for q in splits:
                 progs_.append({"P": [i for i in comb if i not in q], "Q": list(q)})
-    if chk.quick and len(progs_) > 4000:
-        progs_ = [p for p in progs_ if not p["Q"]] + rng.sample([p for p in progs_ if p["Q"]], 3000)
-    jobs = [(p, presentations_of(p, rng, 12 if chk.quick else 24)) for p in progs_]
+    if chk.quick:
+        progs_ = [p for p in progs_ if not p["Q"]] + rng.sample([p for p in progs_ if p["Q"]], 2000)
+    else:
+        big = [p for p in progs_ if len(p["P"]) == 5]
+        progs_ = [p for p in progs_ if len(p["P"]) + len(p["Q"]) < 5] + rng.sample(big, min(len(big), 6000))
+    jobs = [(p, presentations_of(p, rng, 24 if len(p["P"]) + len(p["Q"]) <= 4 else 40)) for p in progs_]
     with multiprocessing.Pool(NCPU) as pool:
         runs = pool.map(_run_prog, jobs, chunksize=50)
     seeds = [3] if chk.quick else [3, 4, 5]
@@ -273,7 +279,7 @@ def run(chk):
                 "subsets of 2..%d statements of an %d-statement catalogue, every assignment of the "
                 "statements to two phases (subsets of <= 3), each presented in every (or %d sampled) "
                 "order(s) of statements and phases and under other hash seeds; non-trivial = inference "
-                "succeeds and more than one presentation" % (maxk, n, 12 if chk.quick else 24),
+                "succeeds and more than one presentation" % (maxk, n, 24),
         "exhaustive": True,
         "exhaustive_scope": "kind universe pairs/triples; all catalogue subsets up to size %d" % maxk,
         "unify_errors": errs, "unify_model_drift": [list(d) for d in drift],
